@@ -167,7 +167,7 @@ def showLibRes (r : Option B09Lib.Res) (outIdx : Nat) : String :=
 
 /-- initial environment: the given parameter values, then a default for every `dim` -/
 def libEnv (p : B09Lib.Proc) (params : List B09Lib.V) : List B09Lib.V :=
-  params ++ (p.kinds.drop params.length).map (fun k => if k == "string" then B09Lib.V.s [] else B09Lib.V.n 0)
+  params ++ (p.kinds.drop params.length).map (fun k => if k == "string" then B09Lib.V.s [] else if k == "boolean" then B09Lib.V.b false else B09Lib.V.n 0)
 
 /-- run one of the helper procedures *as translated from /repo just now* -/
 def handleLib (args : List String) : String :=
